@@ -238,6 +238,16 @@ def run_case(R, r):
             R.fail("C09:copy-unreadable:" + type(ex).__name__, f"{sx[:200]} value {repr(d)[:120]}: reading the copy ({where}) raises {type(ex).__name__}: {str(ex)[:120]}", c2)
         hc.ops.append(f"deep {name}")
         hc.exp.append("val " + got if got is not None else None)
+        # C05: the bytes of the copy decode, by the documented format alone, to the source's value
+        try:
+            dd = L.doc_decode(t, L.image(c._buffer), int(c._offset))
+            ws = L.expect_str(t, se, cache)
+            if dd != ws:
+                R.fail("C05:copy-decodes-differently", f"{sx[:200]}: the copy ({where}) decodes by the documented format to {dd[:140]}, the source holds {ws[:140]}", c2)
+        except L.DocError as ex:
+            R.fail("C05:copy-undecodable", f"{sx[:200]}: the copy ({where}) does not follow the documented format: {str(ex)[:120]}", c2)
+        except Exception:
+            pass
         # disjoint storage
         if c._buffer is sobj._buffer:
             a0, a1 = int(sobj._offset), int(sobj._offset) + int(sobj._get_size())
